@@ -48,7 +48,9 @@ func main() {
 			"(2,3) hostile, in supervised child processes: for valid payloads of every type — every prefix, every position overwritten with the count grid {0,1,MAX,MAX+1,2^16..2^24,2^31,2^32-1,2^63,2^64-1,…} as u8/u16/u32/u64/var-uint (canonical and non-canonical), random byte edits, alternative public-key encodings, lists beyond the maxima, noise, bodies under foreign/unknown commands; "+
 			"streams with foreign magic, oversized/lying length, damaged checksum, truncation at every offset, the largest legal frame, consecutive frames, noise; a hostile case is distinct by (kind, command, bytes)")
 	initKeys()
-	structured(r)
+	if os.Getenv("C24_ONLY") == "" {
+		structured(r)
+	}
 	hostile(r)
 
 	for _, sp := range specs {
@@ -261,6 +263,7 @@ type childLine struct {
 	Inc      int                    `json:"inc"`
 	Evals    int64                  `json:"evals"`
 	Counters map[string]int64       `json:"counters"`
+	Calib    *calibRow              `json:"calib"`
 	MaxAlloc uint64                 `json:"max_alloc"`
 	MaxAmp   float64                `json:"max_amp"`
 	Secs     float64                `json:"secs"`
@@ -285,12 +288,37 @@ func hostile(r *vf.Run) {
 	vkeys := map[string]int{}
 	firstWit := map[string]interface{}{}
 	secs := map[string]float64{}
-	vf.Parallel(len(bs), workers, func(bi int) {
+	// the longest batches first (a batch keeps its index: the index seeds it)
+	var order []int
+	for _, kind := range []string{"alloc", "link", "payload", "stream", "cross"} {
+		for bi := range bs {
+			if bs[bi].Kind == kind {
+				order = append(order, bi)
+			}
+		}
+	}
+	if only := os.Getenv("C24_ONLY"); only != "" { // development: run some batch kinds only (the run is then inconclusive)
+		var o2 []int
+		for _, bi := range order {
+			if strings.Contains(only, bs[bi].Kind) {
+				o2 = append(o2, bi)
+			}
+		}
+		order = o2
+	}
+	var calib []calibRow
+	vf.Parallel(len(order), workers, func(oi int) {
+		bi := order[oi]
+		// the decoders are measured in a single-threaded process; a link needs real concurrency
+		procs := "GOMAXPROCS=1"
+		if bs[bi].Kind == "link" {
+			procs = "GOMAXPROCS=4"
+		}
 		start := uint64(0)
 		for inc := 0; ; inc++ {
 			logPath := fmt.Sprintf("%s/b%d.log", dir, bi)
 			d, err := proc.Run(proc.Cmd{Spec: fmt.Sprintf("%s|%d|%d|%d", dir, bi, start, inc), LogPath: logPath,
-				Env: []string{"GOMAXPROCS=1"}, StallTimeout: 120 * time.Second})
+				Env: []string{procs}, StallTimeout: 120 * time.Second})
 			if err != nil {
 				r.Inconclusive(fmt.Sprintf("cannot start child for batch %d: %v", bi, err))
 				return
@@ -322,7 +350,9 @@ func hostile(r *vf.Run) {
 				r.Extra(fmt.Sprintf("hang_b%d", bi), hc.witness(bs[bi].Magic))
 			} else {
 				name := "stream"
-				if hc.kind == 'P' {
+				if hc.kind == 'L' {
+					name = "link"
+				} else if hc.kind == 'P' || hc.kind == 'A' {
 					name = hc.cmd
 					if specOf(strings.TrimRight(name, "\x00")) == nil {
 						name = "unknown"
@@ -339,7 +369,7 @@ func hostile(r *vf.Run) {
 				vkeys[d.Class+":"+name+":"+d.MessageClass]++
 				mu.Unlock()
 				r.Violation(d.Class+":"+name+":"+d.MessageClass,
-					fmt.Sprintf("the process died (%s: %s) while ReadMessage handled the last logged case (%s)", d.Class, d.Message, hc.tag), w)
+					fmt.Sprintf("the process died (%s: %s) while the code under test handled the last logged case (%s)", d.Class, d.Message, hc.tag), w)
 			}
 			start = d.LastIndex + 1
 			if inc+1 >= maxRestarts {
@@ -378,6 +408,14 @@ func hostile(r *vf.Run) {
 				mu.Unlock()
 			case "ctr":
 				last[ln.Inc] = ln
+			case "incon":
+				r.Inconclusive(ln.What)
+			case "calib":
+				if ln.Calib != nil {
+					mu.Lock()
+					calib = append(calib, *ln.Calib)
+					mu.Unlock()
+				}
 			}
 		})
 		for _, ln := range last {
@@ -433,6 +471,17 @@ func hostile(r *vf.Run) {
 	if os.Getenv("C24_TIMING") != "" {
 		r.Extra("batch_seconds", secs)
 	}
+	sort.Slice(calib, func(i, j int) bool {
+		a, b := calib[i], calib[j]
+		if a.Cmd != b.Cmd {
+			return a.Cmd < b.Cmd
+		}
+		if a.Shape != b.Shape {
+			return a.Shape < b.Shape
+		}
+		return a.L < b.L
+	})
+	r.Extra("alloc_calibration(well-formed base, hostile cases derived from it)", calib)
 	r.Extra("hostile_batches", len(bs))
 	r.Extra("child_deaths", deaths)
 	r.Extra("max_alloc_single_decode_bytes", maxAlloc)
